@@ -64,6 +64,16 @@ Theorem C18_isolation : forall a c h, no_other h = true -> owns a c h = true ->
 Proof. exact (isolation cfg_fixed cfg_fixed_tolerant). Qed.
 Print Assumptions C18_isolation.
 
+(* The complete characterisation, for EVERY history (shared channels, ids moving between channels,
+   re-subscription with a closed channel ... no side condition except no_other): the final state of every
+   channel object — messages received in order, close() calls — is what the per-channel reference `view`
+   computes from the history alone, and the ids the table maps to c are exactly the reference's ids. *)
+Theorem C18_view : forall c h, no_other h = true ->
+  chans (exec h) c = snd (view c h)
+  /\ forall b, In b (fst (view c h)) <-> dget b (subscribers (exec h)) = Some c.
+Proof. exact (view_correct cfg_fixed cfg_fixed_tolerant). Qed.
+Print Assumptions C18_view.
+
 (* The dispatcher never stops: for every history and every breakage pattern every handle_event call
    returns, and the run() loop consumes the whole queue (so exec h IS the state run() reaches). *)
 Theorem C18_total : forall h, no_other h = true ->
